@@ -3,28 +3,49 @@ package main
 import (
 	"fmt"
 
-	testpb "google.golang.org/protobuf/internal/testprotos/test"
-	edpb "google.golang.org/protobuf/internal/testprotos/testeditions"
+	"google.golang.org/protobuf/encoding/prototext"
 	"google.golang.org/protobuf/proto"
+	"google.golang.org/protobuf/reflect/protodesc"
+	"google.golang.org/protobuf/reflect/protoreflect"
+	"google.golang.org/protobuf/reflect/protoregistry"
+	"google.golang.org/protobuf/types/descriptorpb"
 	"google.golang.org/protobuf/types/dynamicpb"
 )
 
 func main() {
-	b := []byte{0x12, 0x00}
-	m := &edpb.TestOneofWithRequired{}
-	fmt.Println("editions generated Unmarshal:", proto.Unmarshal(b, m), " CheckInitialized:", proto.CheckInitialized(m))
-	_, err := proto.Marshal(m)
-	fmt.Println("  Marshal:", err)
-	d := dynamicpb.NewMessage(m.ProtoReflect().Descriptor())
-	fmt.Println("editions dynamicpb Unmarshal:", proto.Unmarshal(b, d))
-	// proto2 analogue in test.proto: TestRequiredForeign? oneof with required: TestAllTypes has oneof_nested_message? use TestRequiredForeign.OneofMessage
-	m2 := &testpb.TestRequiredForeign{}
-	fd := m2.ProtoReflect().Descriptor().Fields().ByName("oneof_message")
-	fmt.Println("proto2 oneof_message field:", fd)
-	if fd != nil {
-		b2 := []byte{byte(fd.Number()<<3 | 2), 0x00}
-		fmt.Println("proto2 generated Unmarshal:", proto.Unmarshal(b2, m2), "CheckInitialized:", proto.CheckInitialized(m2))
-		d2 := dynamicpb.NewMessage(m2.ProtoReflect().Descriptor())
-		fmt.Println("proto2 dynamicpb Unmarshal:", proto.Unmarshal(b2, d2))
+	fdp := &descriptorpb.FileDescriptorProto{}
+	err := prototext.Unmarshal([]byte(`
+name: "verif_ext.proto" package: "verif.ext" syntax: "editions" edition: EDITION_2023
+message_type { name: "M" field { name: "s" number: 1 type: TYPE_STRING label: LABEL_OPTIONAL } extension_range { start: 100 end: 200 } }
+extension { name: "xs" number: 100 type: TYPE_STRING label: LABEL_OPTIONAL extendee: ".verif.ext.M" }
+extension { name: "xr" number: 101 type: TYPE_STRING label: LABEL_REPEATED extendee: ".verif.ext.M" }
+`), fdp)
+	if err != nil {
+		panic(err)
 	}
+	fd, err := protodesc.NewFile(fdp, protoregistry.GlobalFiles)
+	if err != nil {
+		panic(err)
+	}
+	md := fd.Messages().Get(0)
+	xs := dynamicpb.NewExtensionType(fd.Extensions().Get(0))
+	xr := dynamicpb.NewExtensionType(fd.Extensions().Get(1))
+	types := &protoregistry.Types{}
+	types.RegisterExtension(xs)
+	types.RegisterExtension(xr)
+	bad := "bad\xff"
+	m := dynamicpb.NewMessage(md)
+	m.Set(md.Fields().Get(0), protoreflect.ValueOfString(bad))
+	_, err = proto.Marshal(m)
+	fmt.Println("regular field (VERIFY by default) Marshal:", err)
+	m = dynamicpb.NewMessage(md)
+	m.Set(xs.TypeDescriptor(), protoreflect.ValueOfString(bad))
+	b, err := proto.Marshal(m)
+	fmt.Println("extension field Marshal:", err, "bytes", b)
+	m2 := dynamicpb.NewMessage(md)
+	fmt.Println("extension field Unmarshal:", proto.UnmarshalOptions{Resolver: types}.Unmarshal(b, m2), m2.Has(xs.TypeDescriptor()))
+	m = dynamicpb.NewMessage(md)
+	m.Mutable(xr.TypeDescriptor()).List().Append(protoreflect.ValueOfString(bad))
+	_, err = proto.Marshal(m)
+	fmt.Println("repeated extension Marshal:", err)
 }
